@@ -3,10 +3,13 @@
 SpatialFilter.tla decides, on the 1/8-voxel lattice, which particles survive each of the four filters and with which
 coordinates.  L1: the clauses C09_* are invariants of every case TLC evaluates.  L2: (a) the exhaustive small scope
 of MC_SpatialFilter (one coordinate sweeps every face of two tomograms with different dimensions, x + shift splits,
-all four filters) and (b) random lattice lists written by the driver (1..60 particles spread inside / on / beyond
+all four filters, sequences of calls) and (b) random lattice lists written by the driver (1..60 particles spread inside / on / beyond
 every face, non-zero shifts, 1..4 tomograms, random boxes / trim volumes / point sets / masks): TLC computes the
 expected survivors and their coordinates, the driver builds the Motl, calls the filter and compares every survivor
-field by field.  Cases TLC flags as ambiguous (exact distance ties, positions / masks on which the two possible
+field by field.  A case is a sequence of 1..3 calls on the same Motl that reuse the caller's own argument objects (the
+same dimension table / point table / mask list); every call is judged against the original argument values.  Dimension
+tables and tomogram lists include tomograms without particles; particle tables come with default, permuted and gapped
+row labels.  Cases TLC flags as ambiguous (exact distance ties, positions / masks on which the two possible
 mask index conventions differ, odd box sizes) are discarded before the implementation is called.
 """
 import json
@@ -65,10 +68,10 @@ def expected_row(r):
 def dims_arg(dims, variant, workdir):
     import pandas as pd
     table = np.array([[d[0], d[1], d[2], d[3]] for d in dims], dtype=float)
-    v = variant % 3
+    v = variant % 4
     if v == 0:
         return table
-    if v == 1:
+    if v in (1, 2):
         return pd.DataFrame(table, columns=["tomo_id", "x", "y", "z"])
     path = os.path.join(workdir, "dims_%d_%d.txt" % (os.getpid(), variant % 7))
     with open(path, "w") as fh:
@@ -84,13 +87,52 @@ def mask_array(shape, zero):
     return m
 
 
-def apply_op(cm, motl, case, variant, workdir):
-    """Performs the filter call named by the case on the live Motl; returns the Motl holding the result."""
-    import pandas as pd
-    op = case["op"]
+class Args:
+    """The caller's own argument objects of one case: built once from the case's ORIGINAL values and handed, the very
+    same objects, to every call of the case (a filter must not depend on what an earlier call did to its arguments)."""
+
+    def __init__(self, case, variant, workdir):
+        self.case, self.variant, self.workdir = case, variant, workdir
+        self.dims = None
+        self.pts = {}
+        self.masks = {}
+
+    def get_dims(self):
+        if self.dims is None:
+            self.dims = dims_arg(self.case["dims"], self.variant, self.workdir)
+        return self.dims
+
+    def get_points(self, op):
+        import pandas as pd
+        key = json.dumps(op["pts"])
+        if key not in self.pts:
+            self.pts[key] = pd.DataFrame({"tomo_id": [float(q[0]) for q in op["pts"]], "x": [q[1] / U for q in op["pts"]],
+                                          "y": [q[2] / U for q in op["pts"]], "z": [q[3] / U for q in op["pts"]]})
+        return self.pts[key]
+
+    def get_masks(self, op):
+        """(tomo_list, tomo_masks): the listed tomograms in an order that depends on the variant (the property does
+        not depend on it), the masks in the same order; one array for all when the masks are identical."""
+        key = json.dumps([op["tl"], [m[0] for m in op["masks"]]])
+        if key not in self.masks:
+            arrs = {m[0]: mask_array(m[1], m[2]) for m in op["masks"]}
+            tl = list(op["tl"])
+            r = self.variant % max(1, len(tl))
+            tl = tl[r:] + tl[:r]
+            if self.variant % 7 == 3:
+                tl = tl[::-1]
+            same = all(arrs[tl[0]].shape == arrs[t].shape and np.array_equal(arrs[tl[0]], arrs[t]) for t in tl)
+            tomo_list = tl if self.variant % 2 else np.array(tl)
+            arg = arrs[tl[0]] if (same and self.variant % 3 == 0) else [arrs[t] for t in tl]
+            self.masks[key] = (tomo_list, arg)
+        return self.masks[key]
+
+
+def apply_op(cm, motl, op, args, variant):
+    """Performs the filter call on the live Motl; returns the Motl holding the result."""
     name = op["name"]
     if name == "oob":
-        d = dims_arg(case["dims"], variant, workdir)
+        d = args.get_dims()
         if op["kind"] == "center":
             if variant % 2:
                 motl.remove_out_of_bounds_particles(d)
@@ -106,18 +148,13 @@ def apply_op(cm, motl, case, variant, workdir):
             motl.adapt_to_trimming(list(op["start"]), list(op["end"]))
         return motl
     if name == "points":
-        pts = pd.DataFrame({"tomo_id": [float(q[0]) for q in op["pts"]], "x": [q[1] / U for q in op["pts"]],
-                            "y": [q[2] / U for q in op["pts"]], "z": [q[3] / U for q in op["pts"]]})
+        pts = args.get_points(op)
         if variant % 2:
             return motl.clean_by_distance_to_points(pts, op["r"] / U, inplace=False)
         motl.clean_by_distance_to_points(pts, op["r"] / U)
         return motl
     if name == "mask":
-        masks = {m[0]: mask_array(m[1], m[2]) for m in op["masks"]}
-        tl = list(op["tl"])
-        same = all(np.array_equal(masks[tl[0]], masks[t]) for t in tl)
-        tomo_list = tl if variant % 2 else np.array(tl)
-        arg = masks[tl[0]] if (same and variant % 3 == 0) else [masks[t] for t in tl]
+        tomo_list, arg = args.get_masks(op)
         if variant % 5 == 0:
             return motl.clean_by_tomo_mask(tomo_list, arg, inplace=False)
         motl.clean_by_tomo_mask(tomo_list, arg)
@@ -125,27 +162,48 @@ def apply_op(cm, motl, case, variant, workdir):
     raise core.MachineryError("unknown op %r" % (op,))
 
 
-def run_case(ctx, case, exp, variant, kind):
-    """case: JSON form of a SpatialFilter case; exp: {ps, status, amb} as computed by TLC."""
+def run_case(ctx, case, steps, variant, kind):
+    """case: JSON form of a SpatialFilter case (ops = the calls, made one after the other on the same Motl with the
+    same argument objects); steps[k] = {ps, status, amb}: the list after call k+1 as computed by TLC."""
     from cryocat import cryomotl as cm
-    rec = {"kind": kind, "case": case, "expect": exp, "variant": variant}
-    op = case["op"]
-    sig = {"op": op["name"]}
-    if op["name"] == "oob":
-        sig["kind"] = op["kind"]
-    if exp["amb"]:
-        ctx.discard("ambiguous_" + op["name"])
-        return
-    motl = cm.Motl(rows_to_df(case["ps"]))
-    out, err = core.call_guarded(apply_op, cm, motl, case, variant, ctx.workdir)
-    ctx.ran(rec)
-    if err is not None:
-        ctx.fail("call_raises", "%s: %s" % (json.dumps(op)[:200], err), rec, sig)
-        return
-    df = out.df
+    rec = {"kind": kind, "case": case, "steps": steps, "variant": variant}
+    motl = cm.Motl(motlutil.vary_index(rows_to_df(case["ps"]), variant // 3))
+    args = Args(case, variant, ctx.workdir)
+    cur = case["ps"]
+    counted = False
+    for k, op in enumerate(case["ops"]):
+        if k >= len(steps):
+            break
+        exp = steps[k]
+        sig = {"op": op["name"], "calls": len(case["ops"]), "call": k + 1}
+        if op["name"] == "oob":
+            sig["kind"] = op["kind"]
+        if exp["amb"]:
+            ctx.discard("ambiguous_" + op["name"])
+            break
+        out, err = core.call_guarded(apply_op, cm, motl, op, args, variant + k)
+        if not counted:
+            ctx.ran(rec)
+            counted = True
+        if err is not None:
+            ctx.fail("call_raises", "call %d %s: %s" % (k + 1, json.dumps(op)[:200], err), rec, sig)
+            break
+        motl = out
+        verdict = compare(ctx, motl, cur, op, exp, rec, sig)
+        if verdict == "stop":
+            break
+        cur = exp["ps"]
+        st = ctx.extra.setdefault("calls_by_filter", {})
+        st[op["name"]] = st.get(op["name"], 0) + 1
+
+
+def compare(ctx, motl, cur, op, exp, rec, sig):
+    """Compares the live table with the list TLC computed for this call.  Returns "ok", or "stop" when the live
+    object no longer is in the specification's state."""
+    df = motl.df
     if len(df.columns) != 20 or sorted(map(str, df.columns)) != sorted(FIELDS):
         ctx.fail("C09_SurvivorsUntouched", "columns changed: %s" % list(df.columns), rec, sig)
-        return
+        return "stop"
     got = {}
     dup = False
     arr = {f: df[f].to_numpy(dtype=float) for f in FIELDS}
@@ -156,34 +214,49 @@ def run_case(ctx, case, exp, variant, kind):
         got[pid] = {f: float(arr[f][k]) for f in FIELDS}
     if dup:
         ctx.fail("C09_SurvivorsUntouched", "a particle occurs twice in the result", rec, sig)
+        return "stop"
     want = {float(r[0]): expected_row(r) for r in exp["ps"]}
     wrongly_kept = sorted(set(got) - set(want))
     wrongly_removed = sorted(set(want) - set(got))
+    verdict = "ok"
     if wrongly_kept or wrongly_removed:
-        cls = "other"
+        verdict = "stop"
         if op["name"] == "oob" and not wrongly_removed:
-            status = {float(case["ps"][k][0]): exp["status"][k] for k in range(len(case["ps"]))}
+            status = {float(cur[k][0]): exp["status"][k] for k in range(len(cur))}
             known = [p for p in wrongly_kept if status.get(p) == "lower"]
             rest = [p for p in wrongly_kept if status.get(p) != "lower"]
             if known:
                 # particles whose (box around the) complete position leaves the volume through lower faces only
-                ctx.fail("C09_ExactInsideSet", "kept although outside through a lower face only: ids %s" % [int(p) for p in known[:10]], rec,
-                         dict(sig, **{"class": "kept_lower_face_only"}))
+                ctx.fail("C09_ExactInsideSet", "kept although outside through a lower face only: ids %s" % [int(p) for p in known[:10]],
+                         rec, dict(sig, **{"class": "kept_lower_face_only"}))
+                if not rest:
+                    # harness: put the live list back into the specification's state so that the later calls of the
+                    # case are still judged (drops exactly the rows of the reported particles)
+                    motl.df = motl.df.loc[~motl.df["subtomo_id"].isin(known)]
+                    verdict = "ok"
             wrongly_kept = rest
         if wrongly_kept or wrongly_removed:
-            ctx.fail("C09_ExactInsideSet", "wrongly kept ids %s, wrongly removed ids %s" % ([int(p) for p in wrongly_kept[:10]], [int(p) for p in wrongly_removed[:10]]),
-                     rec, dict(sig, **{"class": cls}))
+            ctx.fail("C09_ExactInsideSet", "call %d: wrongly kept ids %s, wrongly removed ids %s" % (
+                sig["call"], [int(p) for p in wrongly_kept[:10]], [int(p) for p in wrongly_removed[:10]]),
+                rec, dict(sig, **{"class": "other"}))
     for pid in sorted(set(got) & set(want)):
         bad = [f for f in FIELDS if not got[pid][f] == want[pid][f]]
         if bad:
             f = bad[0]
             ctx.fail("C09_SurvivorsUntouched", "particle %d: field %s = %r, expected %r (%d field(s) differ)" % (
                 pid, f, got[pid][f], want[pid][f], len(bad)), rec, dict(sig, **{"class": "survivor_changed"}))
-            break
+            return "stop"
+    return verdict
 
 
 def replay(ctx, rec):
-    run_case(ctx, rec["case"], rec["expect"], rec.get("variant", 0), rec.get("kind", "file"))
+    case = rec["case"]
+    if "op" in case:            # single-call form of the committed replay files
+        case = dict(case, ops=[case["op"]])
+        steps = [rec["expect"]]
+    else:
+        steps = rec["steps"]
+    run_case(ctx, case, steps, rec.get("variant", 0), rec.get("kind", "file"))
 
 
 # ---- random lattice cases (inputs only; TLC computes what must come out) -------------------------------------
@@ -209,82 +282,40 @@ def coord_mask(rng, n):
     return rng.choice([rng.randint(-60, -8), rng.randint(8 * (n + 1), 8 * (n + 1) + 60)])
 
 
-def gen_case(rng, idx, big):
-    name = rng.choice(["oob", "oob", "trim", "points", "mask"])
-    ntomo = rng.randint(1, 4)
-    tomos = rng.sample(range(1, 9), ntomo)
-    top = 12 if name == "mask" else (60 if big else 24)
-    dims = [[t, rng.randint(3, top), rng.randint(3, top), rng.randint(3, top)] for t in tomos]
-    dmap = {d[0]: d[1:] for d in dims}
-    n = rng.randint(1, 60 if big else 12)
-    ps = []
-    for k in range(n):
-        t = rng.choice(tomos)
-        if name == "mask":
-            c = [coord_mask(rng, dmap[t][i]) for i in range(3)]
-        else:
-            c = [coord(rng, dmap[t][i]) for i in range(3)]
-        if rng.random() < 0.3:
-            s = [0, 0, 0]
-        else:
-            s = [rng.randint(-24, 24) for _ in range(3)]
-        if name == "trim" and rng.random() < 0.7:
-            x = [8 * rng.randint(-1, dmap[t][i] + 2) for i in range(3)]       # whole-voxel extraction positions
-        else:
-            x = [c[i] - s[i] for i in range(3)]
-        ps.append([k + 1, t] + x + s)
-    rng.shuffle(ps)
-    if name == "oob":
-        kind = rng.choice(["center", "whole"])
-        op = {"name": "oob", "kind": kind, "box": rng.choice([2, 4, 6, 8, 10, 16]) if kind == "whole" else 0}
-    elif name == "trim":
-        m = [max(d[i + 1] for d in dims) for i in range(3)]
-        start = [rng.randint(1, max(1, m[i] // 2)) for i in range(3)]
-        end = [rng.randint(start[i], m[i] + 2) for i in range(3)]
-        op = {"name": "trim", "start": start, "end": end}
-    elif name == "points":
-        pts = []
-        for _ in range(rng.randint(1, 6)):
-            if rng.random() < 0.7:
-                src = rng.choice(ps)
-                pos = [src[2 + i] + src[5 + i] + rng.randint(-20, 20) for i in range(3)]
-                t = src[1] if rng.random() < 0.8 else rng.choice(tomos)
-            else:
-                t = rng.choice(tomos + [9])
-                pos = [rng.randint(0, 8 * dmap.get(t, [10, 10, 10])[i]) for i in range(3)]
-            pts.append([t] + pos)
-        op = {"name": "points", "pts": pts, "r": rng.choice([4, 8, 12, 17, 24, 33, 40])}
-    else:
-        tl = sorted(rng.sample(tomos, rng.randint(1, ntomo)))
+def gen_mask_op(rng, ps, tomos, extra, dmap):
+    tl = rng.sample(tomos, rng.randint(1, len(tomos)))
+    for t in extra:                                   # tomograms without particles, anywhere in the list
+        if rng.random() < 0.7:
+            tl.insert(rng.randint(0, len(tl)), t)
+    one_for_all = rng.random() < 0.25
+    masks = []
+    base = None
+    for t in tl:
+        shape = list(dmap[t])
         if rng.random() < 0.2:
-            tl = tl + [10]                      # a tomogram without particles
-        one_for_all = rng.random() < 0.3
-        masks = []
-        base = None
-        for t in tl:
-            shape = list(dmap.get(t, [5, 5, 5]))
-            if rng.random() < 0.2:
-                shape = [max(2, v - rng.randint(0, 2)) for v in shape]
-            if one_for_all and base is not None:
-                masks.append([t, base[0], base[1]])
-                continue
-            p0 = rng.choice([0.2, 0.5, 0.8])
-            zero = set()
-            # blobs of zeros: random half-spaces / boxes
-            for _ in range(rng.randint(1, 3)):
-                lo = [rng.randint(0, shape[i] - 1) for i in range(3)]
-                hi = [rng.randint(lo[i], shape[i] - 1) for i in range(3)]
-                for i in range(lo[0], hi[0] + 1):
-                    for j in range(lo[1], hi[1] + 1):
-                        for k in range(lo[2], hi[2] + 1):
-                            zero.add((i, j, k))
-            for i in range(shape[0]):
-                for j in range(shape[1]):
-                    for k in range(shape[2]):
-                        if rng.random() < 0.05 * p0:
-                            zero.add((i, j, k))
-            masks.append([t, shape, zero])
-            base = (shape, zero)
+            shape = [max(2, v - rng.randint(0, 2)) for v in shape]
+        if one_for_all and base is not None:
+            masks.append([t, base[0], set(base[1])])
+            continue
+        p0 = rng.choice([0.2, 0.5, 0.8])
+        zero = set()
+        for _ in range(rng.randint(1, 3)):            # boxes of zeros
+            lo = [rng.randint(0, shape[i] - 1) for i in range(3)]
+            hi = [rng.randint(lo[i], shape[i] - 1) for i in range(3)]
+            for i in range(lo[0], hi[0] + 1):
+                for j in range(lo[1], hi[1] + 1):
+                    for k in range(lo[2], hi[2] + 1):
+                        zero.add((i, j, k))
+        for i in range(shape[0]):
+            for j in range(shape[1]):
+                for k in range(shape[2]):
+                    if rng.random() < 0.05 * p0:
+                        zero.add((i, j, k))
+        if rng.random() < 0.15:
+            zero = set((i, j, k) for i in range(shape[0]) for j in range(shape[1]) for k in range(shape[2])) - zero
+        masks.append([t, shape, zero])
+        base = (shape, zero)
+    if not one_for_all:
         # make the voxel under each particle and its (-1,-1,-1) neighbour agree
         for t, shape, zero in masks:
             for p in ps:
@@ -298,8 +329,81 @@ def gen_case(rng, idx, big):
                         zero.add(w)
                     else:
                         zero.discard(w)
-        op = {"name": "mask", "tl": tl, "masks": [[t, shape, sorted(list(z) for z in zero)] for t, shape, zero in masks]}
-    return {"id": idx, "ps": ps, "dims": dims, "op": op}
+    return {"name": "mask", "tl": tl, "masks": [[t, shape, sorted(list(z) for z in zero)] for t, shape, zero in masks]}
+
+
+def gen_points(rng, ps, tomos, dmap):
+    pts = []
+    for _ in range(rng.randint(1, 6)):
+        if rng.random() < 0.7:
+            src = rng.choice(ps)
+            pos = [src[2 + i] + src[5 + i] + rng.randint(-20, 20) for i in range(3)]
+            t = src[1] if rng.random() < 0.8 else rng.choice(tomos)
+        else:
+            t = rng.choice(tomos + [9])
+            pos = [rng.randint(0, 8 * dmap.get(t, [10, 10, 10])[i]) for i in range(3)]
+        pts.append([t] + pos)
+    return pts
+
+
+def gen_case(rng, idx, big):
+    r = rng.random()
+    if r < 0.62:
+        names = [rng.choice(["oob", "oob", "trim", "points", "mask"])]
+    else:
+        names = rng.choice([["oob", "oob"], ["oob", "oob", "oob"], ["oob", "trim", "oob"], ["points", "points"],
+                            ["mask", "mask"], ["mask", "oob"], ["oob", "points", "oob"], ["trim", "oob"], ["oob", "mask"]])
+    ntomo = rng.randint(1, 4)
+    ids = rng.sample(range(1, 9), ntomo + 2)
+    tomos, extra = ids[:ntomo], ids[ntomo:ntomo + rng.randint(0, 2)]      # extra: tomograms without particles
+    top = 12 if "mask" in names else (60 if big else 24)
+    dims = [[t, rng.randint(3, top), rng.randint(3, top), rng.randint(3, top)] for t in tomos + extra]
+    rng.shuffle(dims)
+    dmap = {d[0]: d[1:] for d in dims}
+    n = rng.randint(1, 60 if big else 12)
+    ps = []
+    for k in range(n):
+        t = rng.choice(tomos)
+        if "mask" in names:
+            c = [coord_mask(rng, dmap[t][i]) for i in range(3)]
+        else:
+            c = [coord(rng, dmap[t][i]) for i in range(3)]
+        if rng.random() < 0.3:
+            s = [0, 0, 0]
+        else:
+            s = [rng.randint(-24, 24) for _ in range(3)]
+        if names[0] == "trim" and rng.random() < 0.7:
+            x = [8 * rng.randint(-1, dmap[t][i] + 2) for i in range(3)]       # whole-voxel extraction positions
+        else:
+            x = [c[i] - s[i] for i in range(3)]
+        ps.append([k + 1, t] + x + s)
+    rng.shuffle(ps)
+    ops = []
+    pts = None
+    mask_op = None
+    for name in names:
+        if name == "oob":
+            kind = rng.choice(["center", "whole", "whole"]) if len(names) > 1 else rng.choice(["center", "whole"])
+            ops.append({"name": "oob", "kind": kind, "box": rng.choice([2, 4, 6, 8, 10, 16]) if kind == "whole" else 0})
+        elif name == "trim":
+            m = [max(d[i + 1] for d in dims) for i in range(3)]
+            if len(names) > 1:                     # a mild trim, so that later calls still see particles
+                start = [rng.randint(1, 2) for i in range(3)]
+                end = [m[i] + rng.randint(0, 2) for i in range(3)]
+            else:
+                start = [rng.randint(1, max(1, m[i] // 2)) for i in range(3)]
+                end = [rng.randint(start[i], m[i] + 2) for i in range(3)]
+            ops.append({"name": "trim", "start": start, "end": end})
+        elif name == "points":
+            if pts is None:
+                pts = gen_points(rng, ps, tomos, dmap)
+            rs = [4, 8, 12, 17, 24, 33, 40]
+            ops.append({"name": "points", "pts": pts, "r": rng.choice(rs)})
+        else:
+            if mask_op is None:
+                mask_op = gen_mask_op(rng, ps, tomos, extra, dmap)
+            ops.append(mask_op)
+    return {"id": idx, "ps": ps, "dims": dims, "ops": ops}
 
 
 def run(ctx):
@@ -320,16 +424,21 @@ def run(ctx):
         res = ctx.tlc("MC_SpatialFilter", cfg("SmallCases", "EmitBoth"), name="small", workers=1)
         recs = res.tagged.get("SMALL", [])
         if len(recs) < 1000:
-            raise core.MachineryError("small scope produced %d cases\n%s" % (len(recs), res.stdout[-1500:]))
+            raise core.MachineryError("small scope produced %d records\n%s" % (len(recs), res.stdout[-1500:]))
         ctx.exhaustive["L1_small"] = True
-        keyed = sorted(recs, key=lambda r: core.stable_hash([ctx.seed, r["case"]]))
+        by_case = {}
+        for r in recs:
+            key = core.stable_hash(r["case"])
+            ent = by_case.setdefault(key, {"case": r["case"], "steps": {}})
+            ent["steps"][r["step"]] = {"ps": r["ps"], "status": r["status"], "amb": r["amb"]}
+        keyed = sorted(by_case.items(), key=lambda kv: core.stable_hash([ctx.seed, kv[0]]))
         chosen = keyed[:ctx.pick(2500, len(keyed))]
         ctx.exhaustive["L2_small"] = len(chosen) == len(keyed)
-        ctx.extra["small_cases"] = len(recs)
+        ctx.extra["small_cases"] = len(keyed)
         ctx.extra["small_replayed"] = len(chosen)
-        for i, r in enumerate(chosen):
-            run_case(ctx, r["case"], {"ps": r["ps"], "status": r["status"], "amb": r["amb"]},
-                     (ctx.seed * 7919 + i) % 100003, "small")
+        for i, (_, ent) in enumerate(chosen):
+            steps = [ent["steps"][k] for k in sorted(ent["steps"])]
+            run_case(ctx, ent["case"], steps, (ctx.seed * 7919 + i) % 100003, "small")
     if not only or "file" in only:
         n = ctx.pick(500, 20000)
         rng = random.Random(ctx.seed * 104729 + 9)
@@ -339,13 +448,16 @@ def run(ctx):
             for c in cases:
                 fh.write(json.dumps(c) + "\n")
         res = ctx.tlc("MC_SpatialFilter", cfg("FileCases", "Emit"), name="file", workers=1, env={"CASE_FILE": path})
-        out = {r["id"]: r for r in res.tagged.get("RES", [])}
+        out = {}
+        for r in res.tagged.get("RES", []):
+            out.setdefault(r["id"], {})[r["step"]] = {"ps": r["ps"], "status": r["status"], "amb": r["amb"]}
         if len(out) != n:
-            raise core.MachineryError("SpatialFilter returned %d results for %d cases\n%s" % (len(out), n, res.stdout[-1500:]))
+            raise core.MachineryError("SpatialFilter returned results for %d of %d cases\n%s" % (len(out), n, res.stdout[-1500:]))
         for i, c in enumerate(cases):
-            r = out[c["id"]]
-            run_case(ctx, c, {"ps": r["ps"], "status": r["status"], "amb": r["amb"]}, (ctx.seed * 31 + i) % 100003, "file")
+            steps = [out[c["id"]][k] for k in sorted(out[c["id"]])]
+            if sorted(out[c["id"]]) != list(range(1, len(steps) + 1)):
+                raise core.MachineryError("case %d: steps %s" % (c["id"], sorted(out[c["id"]])))
+            run_case(ctx, c, steps, (ctx.seed * 31 + i) % 100003, "file")
         ctx.extra["file_cases"] = n
-    ran = ctx.traces
-    if ran == 0:
+    if ctx.traces == 0:
         raise core.MachineryError("no case was executed")
